@@ -28,6 +28,10 @@ Reject(why, exp) == PrintT("REJECT " \o ToJson([l |-> l, why |-> why, ev |-> Ev,
 TNext == /\ l <= NT /\ l' = l + 1 /\ lastOp' = lastOp
          /\ IF Ev.op = "reset" THEN ents' = <<>> /\ skipping' = FALSE
             ELSE IF skipping THEN UNCHANGED <<ents, skipping>>
+            ELSE IF Ev.op = "ctor" THEN
+                 \* constructor under allocation failure: a failed constructor leaves nothing allocated (C15)
+                 IF Ev.live = 0 \/ "leak" \notin Owned THEN UNCHANGED <<ents, skipping>>
+                 ELSE PrintT("REJECT " \o ToJson([l |-> l, why |-> {"leak"}, ev |-> Ev, exp |-> "constructor leaked"])) /\ skipping' = TRUE /\ UNCHANGED <<ents>>
             ELSE IF Ev.op \in {"crash", "timeout"} THEN
                  Reject({Ev.op, "result"}, "no action admits this event") /\ skipping' = TRUE /\ UNCHANGED ents
             ELSE IF Why \cap (Owned \cup {"result", "state", "enomem"}) = {} THEN
